@@ -330,6 +330,22 @@ def equivalent(a, b, extra_rules=None) -> str:
     return Verdict.DIFFERENT
 
 
+def distribute_item(t, is_array=lambda a: not a.is_number):
+    """(a * b)[m] -> a[m] * b[m] (and the same for sums and integer powers) for element-wise arithmetic of arrays of one
+    shape; numbers stay outside.  `is_array` says which operands are arrays."""
+    def fn(n):
+        if fname(n) == "item" and isinstance(n.args[0], (sp.Mul, sp.Add, sp.Pow)):
+            a, ix = n.args
+            if isinstance(a, sp.Pow):
+                if a.args[1].is_number and is_array(a.args[0]):
+                    return distribute_item(op("item", a.args[0], ix), is_array) ** a.args[1]
+                return None
+            if all(x.is_number or is_array(x) for x in a.args):
+                return a.func(*[x if x.is_number else distribute_item(op("item", x, ix), is_array) for x in a.args])
+        return None
+    return rewrite(t, fn)
+
+
 def canon_minmax(t):
     """np.min((a, b)) / np.max((a, b)) over a literal pair is the binary minimum / maximum (one spelling for both)."""
     def fn(n):
